@@ -10,7 +10,9 @@
        specialise this to handler calls and to the range plugin model of C02: what concurrent
        requests are answered satisfies C02 under every schedule; prefix_concurrent_c08 does the same
        for the prefix plugin (C08: no panic, disjoint across clients), alloc4_concurrent_distinct for
-       concurrent Allocate calls on the IPv4 allocator (C04).
+       concurrent Allocate calls on the IPv4 allocator (C04), file_concurrent for requests handled
+       while the lease file is refreshed (C10: each is answered from the last content that loaded at
+       its point of the serial order).
    (2) That the code HAS this shape is computed from /repo's sources on every run: go2v skeleton
        reads, for every function touching lock-protected state (the two allocators, range.Handler4,
        prefix.Handle, the file plugin's handlers and loader) and for HandleMsg4/6 with respect to
@@ -26,7 +28,7 @@
    (3) The Go memory model (a data race needs two unsynchronised accesses), goroutine scheduling
        and sync.Mutex/RWMutex/Pool are not modelled: the harness runs concurrent datagrams through
        HandleMsg4/6 with full chains under the Go race detector on every run. *)
-From Verif Require Import Base RangePlugin RangeProofs RangeTheorems RangeExamples Conc ConcProofs ConcRange ConcPrefix ConcAlloc ConcExamples Skel Skeleton SkelProofs SkelGen.
+From Verif Require Import Base Msg4 Msg6 Setup FilePlugin FileRun FileProofs RangePlugin RangeProofs RangeTheorems RangeExamples Conc ConcProofs ConcRange ConcPrefix ConcAlloc ConcFile ConcExamples Skel Skeleton SkelProofs SkelGen.
 From Coq Require Import Permutation.
 
 Theorem conc_serialisable :
@@ -250,6 +252,30 @@ Theorem alloc4_concurrent_distinct :
   (Some (AllocRun.RAlloc (Ok (ip, m2))))) -> False.
 Proof. exact (@ConcAlloc.alloc4_concurrent_distinct). Qed.
 Print Assumptions alloc4_concurrent_distinct.
+
+Theorem file_concurrent :
+  forall (O0 : oracles) (v6 : bool) (t0 : ftable) (ops : list fop),
+  Forall (same_proto v6) ops ->
+  forall sched : list nat,
+  all_done ftable (option fobs) (option fobs) (map (aop ftable fop fobs (fstep O0)) ops)
+  (run ftable (option fobs) (option fobs) (map (aop ftable fop fobs (fstep O0)) ops) t0
+  sched) ->
+  exists sigma : list nat,
+  Permutation.Permutation sigma (seq 0 (length ops)) /\
+  (let hist := pick fop ops sigma in
+  let c :=
+  run ftable (option fobs) (option fobs) (map (aop ftable fop fobs (fstep O0)) ops) t0
+  sched in
+  sh ftable (option fobs) (option fobs) c = last_good O0 v6 t0 hist /\
+  (forall (t : nat) (r : option fobs),
+  nth_error (thr ftable (option fobs) (option fobs) c) t =
+  Some (Done ftable (option fobs) (option fobs) r) ->
+  exists (k : nat) (o : fop),
+  nth_error sigma k = Some t /\
+  nth_error ops t = Some o /\
+  r = Some (snd (fstep O0 (last_good O0 v6 t0 (firstn k hist)) o)))).
+Proof. exact (@ConcFile.file_concurrent). Qed.
+Print Assumptions file_concurrent.
 
 Theorem checker_sound :
   forall (s : sk) (tr : list ev) (o : outcome),
